@@ -13,7 +13,7 @@ import (
 )
 
 func init() {
-	register("C02", func(r *Repo) []Fact { return append(factsC02(r), factsC02Workflow(r)...) })
+	register("C02", func(r *Repo) []Fact { return append(append(factsC02(r), factsC02Workflow(r)...), factsC02Rerun(r)...) })
 }
 
 // edgeCallFlags finds the call `n.g.addEdgeWithMappings(fromNodeKey, n.key, <noControl>, <noData>, …)`
